@@ -19,7 +19,7 @@ LEVEL = "exploration"
 CASE_TIMEOUT = 30
 RULE = (
     "formula F over leaves Ev0..Ev4 drawn recursively (and/or nodes with 2-3 children, depth<=3, 2-5 leaves, distinct leaves) "
-    "rendered fully parenthesised as `match F` / `await F` / `when F [or when G]`; event sequence of <=10 events drawn from the "
+    "rendered fully parenthesised as `match F` / `await F` / `when F [or when G]` (await/when leaves are flows f_i := match Ev_i(), or actions X_iAction() finished by their ActionFinished event, or a mix); event sequence of <=10 events drawn from the "
     "leaf events (with repetition) and 2 irrelevant events; plus enumeration of ALL permutations of the leaf events for every "
     "formula shape with <=4 leaves (x 3 forms). Non-trivial = formula uses both operators or has depth>=2; distinct by "
     "(form, formula, sequence)."
@@ -147,7 +147,12 @@ def _case(draw):
     if draw(st.booleans()):
         # make sure the formula can complete: append a permutation of all leaves
         seq = seq + list(draw(st.permutations(list(range(n)))))
-    return {"form": form, "f": f, "g": g, "seq": seq[:14]}
+    leaf = "flow"
+    # `await A or B` over ACTIONS starts only one of them (the two starts compete as actions; documented for or-groups of
+    # actions), so action leaves are only used in and-only formulas, where all of them are started
+    if form in ("await", "when") and g is None and ops(f) == {"and"}:
+        leaf = draw(st.sampled_from(["flow", "action", "mixed"]))
+    return {"form": form, "f": f, "g": g, "seq": seq[:14], "leaf": leaf}
 
 
 def strategy(tier):
@@ -164,12 +169,22 @@ def enumerate_cases(tier):
             for form in ("match", "await", "when"):
                 for p in perms:
                     yield {"form": form, "f": f, "g": None, "seq": list(p)}
+            if n <= 3 and ops(f) == {"and"}:
+                for form in ("await", "when"):
+                    for leaf in ("action", "mixed"):
+                        for p in perms:
+                            yield {"form": form, "f": f, "g": None, "seq": list(p), "leaf": leaf}
+
+
+def _is_action_leaf(case, i):
+    kind = case.get("leaf", "flow")
+    return kind == "action" or (kind == "mixed" and i % 2 == 1)
 
 
 def program(case):
     f, g, form = case["f"], case["g"], case["form"]
     ev = lambda i: f"Ev{i}()"  # noqa: E731
-    fl = lambda i: f"f{i}"  # noqa: E731
+    fl = lambda i: f"X{i}Action()" if _is_action_leaf(case, i) else f"f{i}"  # noqa: E731
     lines = []
     if form != "match":
         n = max(leaves(f) + (leaves(g) if g else [])) + 1
@@ -202,8 +217,17 @@ def prop(case):
     done_at = None
     exp_at = None
     exp_markers = None
+    uids = {}
+    for e0 in state.outgoing_events:
+        t = e0["type"]
+        if t.startswith("StartX") and t.endswith("Action"):
+            uids[int(t[6:-6])] = e0["action_uid"]
     for idx, e in enumerate(seq):
-        out = smh.types(smh.feed(state, smh.ev(f"Ev{e}")))
+        if e < 90 and _is_action_leaf(case, e) and e not in seen and e in uids:
+            event = smh.ev(f"X{e}ActionFinished", action_uid=uids[e], is_success=True)
+        else:
+            event = smh.ev(f"Ev{e}")
+        out = smh.types(smh.feed(state, event))
         seen.add(e)
         markers = [t for t in out if t in ("Done", "Done2")]
         if exp_at is None:
@@ -226,7 +250,7 @@ def prop(case):
     o = ops(f) | (ops(g) if g else set())
     d = max(fdepth(f), fdepth(g) if g else 0)
     nt = len(o) == 2 or d >= 2
-    labels = [form, f"depth{d}", "both-ops" if len(o) == 2 else "one-op", "completed" if exp_at is not None else "never-true"]
+    labels = [form, "leaf-" + case.get("leaf", "flow"), f"depth{d}", "both-ops" if len(o) == 2 else "one-op", "completed" if exp_at is not None else "never-true"]
     if g:
         labels.append("two-cases")
     if any(e >= 90 for e in seq):
